@@ -443,7 +443,11 @@ class BytesDataType(ElementaryDataType):
 
     @classmethod
     def _encode(cls, value: bytes, *args, **kwargs) -> bytes:
-        return value[: cls.size] if cls.size != -1 else value[:]
+        if not isinstance(value, (bytes, bytearray, memoryview)):
+            raise DataError(f"expected bytes, not {type(value).__name__}")
+        if cls.size != -1 and len(value) < cls.size:
+            raise DataError(f"expected {cls.size} bytes, only {len(value)} given")
+        return bytes(value[: cls.size] if cls.size != -1 else value[:])
 
     @classmethod
     def _decode(cls, stream: BytesIO) -> bytes:
